@@ -8,7 +8,7 @@ RULE = ("seeded random configurators x sequences of 1-3 added rules (plain Any/A
         "structurally with the model's add and with StingyConfigurator(*old rules, new rule, id=...) built directly "
         "(structure, default prios, polyhedron with default priority vector, objectives and solutions through a recorder and "
         "an exact brute-force solver), the original snapshotted, refusal checked; non-trivial = at least one accepted addition")
-ASSUMPTIONS = ["refusal concerns top-level rule/item ids (DESIGN §4 C18)", "validated configurators over boolean items"]
+ASSUMPTIONS = ["refusal concerns top-level rule/item ids (DESIGN §4 C18)", "validated configurators; items as id strings, variable objects (boolean, fixed, integer) or instances of a variable subclass"]
 
 
 def brute(poly, objs):
@@ -80,7 +80,9 @@ def do_case(ctx, inp):
 def gen_rule(rng, t, k):
     names = sorted(leaves_of(t))
     kind = rng.choice(["Any", "All", "AtMost", "ccAny", "ccXor", "Imply"])
-    grp = lambda n: [{"c": "str", "id": x} for x in rng.sample(names, min(n, len(names)))]
+    lvs = leaves_of(t)
+    bools = [x for x in names if lvs[x] == (0, 1)] or names
+    grp = lambda n: [{"c": "str", "id": x} for x in rng.sample(bools, min(n, len(bools)))]
     r = {}
     x = rng.random()
     if x < 0.2:
@@ -101,7 +103,7 @@ def run(ctx):
     rng = ctx.rng
     n = (120 if ctx.quick else 1500) * (3 if ctx.search else 1)
     for _ in range(n):
-        a, o, t = valid_configurator(rng, ctx.quick)
+        a, o, t = valid_configurator(rng, ctx.quick, top_items=True)
         rules = []
         for k in range(rng.randint(1, 3)):
             for _ in range(20):
